@@ -327,7 +327,8 @@ func finish(e *Engine, rep *checkReport, seed int) int {
 		suffix := " no-failing-input-found"
 		if o.Cover {
 			rp["detail"] = "vacuity guard: the preconditions of this function are unsatisfiable"
-		} else if o.Res.Verdict == "sat" {
+		} else if o.Res.Verdict == "sat" || o.Res.Verdict == "timeout" || o.Res.Verdict == "unknown" {
+			// without a model the replay templates still run their fixed corpus for this function family
 			out, confirmed, cmd := replayOnRealCode(e, o)
 			rp["replay_cmd"] = cmd
 			rp["replay_output"] = out
